@@ -94,7 +94,7 @@ int main(int argc, char **argv) {
     return r.empty() ? 0 : 3;
   }
 
-  uint64_t n = a.thorough() ? 25000 : 2500;
+  uint64_t n = a.thorough() ? 150000 : 2500;
   if (a.kv.count("cases")) n = strtoull(a.kv["cases"].c_str(), 0, 10);
   std::string params = "seed=" + std::to_string(a.seed * 1000 + a.worker) + " max_success=" + std::to_string(n) + " max_size=60 max_discard_ratio=50";
   setenv("RC_PARAMS", params.c_str(), 1);
